@@ -1,6 +1,7 @@
 (* C02 property theorems.  Nothing but statements closed by `exact`, each followed by
    Print Assumptions.  `gen_*` are the functions regenerated from _fh.py / validation/forecasting.py
-   on this run; `fh_init` is the hand model of the constructor (tied by correspondence);
+   on this run (gen_init = __init__ + _check_values, with the pandas primitives coerce / nunique /
+   sort_values modelled in Model.v and tied by correspondence);
    `wf f` = the stored values are strictly increasing (what the constructor guarantees). *)
 From Coq Require Import ZArith QArith List Bool Permutation.
 Require Import SkV.Lib.Base SkV.Lib.ZRange SkV.C02.Model SkV.C02.Gen SkV.C02.Proofs SkV.C02.Bridge.
@@ -8,22 +9,22 @@ Import ListNotations.
 Open Scope Z_scope.
 
 (* -- sentence 1a: whatever is accepted is stored strictly increasing (sorted, duplicate-free) *)
-Theorem C02_stored_sorted : forall i r f, fh_init i r = Ok f -> sorted_lt (vals f).
-Proof. exact init_sorted. Qed.
+Theorem C02_stored_sorted : forall i r f, gen_init i r = Ok f -> sorted_lt (vals f).
+Proof. exact code_init_sorted. Qed.
 Print Assumptions C02_stored_sorted.
 
 (* -- sentence 1b: a duplicate-free collection of integer steps l, presented as int, bool, list or
       array of ints / bools / integral floats, integer index or range index, is accepted under
       either flag and stored as the sorted permutation of l *)
 Theorem C02_accepts_and_sorts_integer_steps : forall i l b, holds_steps i l -> NoDup l ->
-  exists f, fh_init i (RBool b) = Ok f /\ rel f = b /\
+  exists f, gen_init i (RBool b) = Ok f /\ rel f = b /\
             sorted_lt (vals f) /\ Permutation (vals f) l /\ (forall x, In x (vals f) <-> In x l).
-Proof. exact init_accepts_and_sorts. Qed.
+Proof. exact code_init_accepts_and_sorts. Qed.
 Print Assumptions C02_accepts_and_sorts_integer_steps.
 
 Theorem C02_sorted_steps_stored_verbatim : forall i l b, holds_steps i l -> sorted_lt l ->
-  fh_init i (RBool b) = Ok (mkfh l b).
-Proof. exact init_sorted_verbatim. Qed.
+  gen_init i (RBool b) = Ok (mkfh l b).
+Proof. exact code_init_sorted_verbatim. Qed.
 Print Assumptions C02_sorted_steps_stored_verbatim.
 
 (* -- sentence 1c: absolute form = cutoff + steps (order kept), for every cutoff *)
@@ -52,7 +53,7 @@ Print Assumptions C02_roundtrip_absolute.
 
 (* -- sentence 1, end to end from the constructor arguments *)
 Theorem C02_build_absolute_and_back : forall i l c, holds_steps i l -> NoDup l ->
-  exists f a, fh_init i (RBool true) = Ok f /\
+  exists f a, gen_init i (RBool true) = Ok f /\
     sorted_lt (vals f) /\ Permutation (vals f) l /\
     gen_to_absolute f (Some c) = Ok a /\
     vals a = map (fun s => c + s) (vals f) /\ rel a = false /\ sorted_lt (vals a) /\
@@ -124,40 +125,40 @@ Proof. exact code_absolute_int. Qed.
 Print Assumptions C02_absolute_int.
 
 (* -- sentence 4: duplicates, fractional values, unsupported types are rejected, not coerced *)
-Theorem C02_rejects_duplicates : forall i l r, holds_steps i l -> ~ NoDup l -> fh_init i r = Err.
-Proof. exact init_rejects_duplicates. Qed.
+Theorem C02_rejects_duplicates : forall i l r, holds_steps i l -> ~ NoDup l -> gen_init i r = Err.
+Proof. exact code_init_rejects_duplicates. Qed.
 Print Assumptions C02_rejects_duplicates.
 
 Theorem C02_rejects_fractional : forall i ns q r, element_container i ns -> In (NFloat q) ns ->
-  (forall z, ~ (q == inject_Z z)%Q) -> fh_init i r = Err.
-Proof. exact init_rejects_fractional. Qed.
+  (forall z, ~ (q == inject_Z z)%Q) -> gen_init i r = Err.
+Proof. exact code_init_rejects_fractional. Qed.
 Print Assumptions C02_rejects_fractional.
 
 Theorem C02_rejects_unsupported_element : forall i ns n r, element_container i ns -> In n ns ->
-  n = NStr \/ n = NNone \/ n = NNonFinite -> fh_init i r = Err.
-Proof. exact init_rejects_unsupported_element. Qed.
+  n = NStr \/ n = NNone \/ n = NNonFinite -> gen_init i r = Err.
+Proof. exact code_init_rejects_unsupported_element. Qed.
 Print Assumptions C02_rejects_unsupported_element.
 
 Theorem C02_rejects_unsupported_container : forall r,
-  fh_init IOther r = Err /\ fh_init IArrNd r = Err.
-Proof. exact init_rejects_unsupported_container. Qed.
+  gen_init IOther r = Err /\ gen_init IArrNd r = Err.
+Proof. exact code_init_rejects_unsupported_container. Qed.
 Print Assumptions C02_rejects_unsupported_container.
 
-Theorem C02_rejects_non_bool_flag : forall i, fh_init i RBad = Err.
-Proof. exact init_rejects_bad_flag. Qed.
+Theorem C02_rejects_non_bool_flag : forall i, gen_init i RBad = Err.
+Proof. exact code_init_rejects_bad_flag. Qed.
 Print Assumptions C02_rejects_non_bool_flag.
 
 (* integral floats are not "coerced": they are the integers they equal *)
 Theorem C02_integral_floats_are_ints : forall (l : list Z) r,
-  fh_init (IList (map (fun z => NFloat (inject_Z z)) l)) r = fh_init (IList (map NInt l)) r /\
-  fh_init (IArr (map (fun z => NFloat (inject_Z z)) l)) r = fh_init (IIndex l) r.
-Proof. exact init_integral_floats. Qed.
+  gen_init (IList (map (fun z => NFloat (inject_Z z)) l)) r = gen_init (IList (map NInt l)) r /\
+  gen_init (IArr (map (fun z => NFloat (inject_Z z)) l)) r = gen_init (IIndex l) r.
+Proof. exact code_init_integral_floats. Qed.
 Print Assumptions C02_integral_floats_are_ints.
 
 (* -- check_fh: accepted exactly when non-empty and (if enforced) relative; horizon unchanged *)
 Theorem C02_check_fh : forall x e f,
   gen_check_fh x e = Ok f <->
-  (match x with InRaw i => fh_init i (RBool true) = Ok f | InFh g => g = f end) /\
+  (match x with InRaw i => gen_init i (RBool true) = Ok f | InFh g => g = f end) /\
   vals f <> [] /\ (e = true -> rel f = true).
 Proof. exact code_check_fh. Qed.
 Print Assumptions C02_check_fh.
@@ -167,7 +168,7 @@ Print Assumptions C02_check_fh.
 Example C02_nonvacuous :
   holds_steps (IList [NInt 3; NFloat (Qmake (-2) 1); NBool false; NInt 1]) [3; -2; 0; 1] /\
   NoDup [3; -2; 0; 1] /\
-  fh_init (IList [NInt 3; NFloat (Qmake (-2) 1); NBool false; NInt 1]) (RBool true)
+  gen_init (IList [NInt 3; NFloat (Qmake (-2) 1); NBool false; NInt 1]) (RBool true)
     = Ok (mkfh [-2; 0; 1; 3] true) /\
   wf (mkfh [-2; 0; 1; 3] true) /\
   gen_to_absolute (mkfh [-2; 0; 1; 3] true) (Some (-5)) = Ok (mkfh [-7; -5; -4; -2] false) /\
